@@ -34,6 +34,12 @@ CLAIMED = {
                      "delivered event is compared textually at 15 significant digits with what was written.",
                 note="15-digit equality is decided by re-storing the loaded event with the library's own store(); values whose 15-digit decimal is not representable (above ~1.797e308) are not generated. "
                      "After an injected EIO/ENOENT the reader may fail but must never deliver a wrong event. Storage corruption of the files is C15."),
+    "C15": dict(level="fault_enumeration", ref="DESIGN.md section 3 (C15)", replay_flavour="asan",
+                technique="deterministic simulation with storage-fault injection: valid files from the real writers are torn, flipped, zeroed, dropped or duplicated on a simulated disk (plus in-flight EIO/short reads), then loaded and used under ASan/UBSan with allocation and read-call accounting",
+                text="Each run damages a valid, writer-produced file on the simulated disk with 1-2 storage faults and hands it to the loader, then uses what was loaded. Oracle: an exception, or a load "
+                     "whose results satisfy the loader's own predicate (event::is_valid), and always no signal, no sanitizer report, bounded read calls and bounded allocation. The thorough tier "
+                     "enumerates every truncation offset of the sample event file and gA tables; the other fault kinds are seeded samples.",
+                note="Not grammar-based fuzzing of arbitrary byte strings: only the storage-fault vocabulary over valid files (said in DESIGN.md). The fourth anchor (command-line parser) has no file; malformed command lines are exercised by C13."),
 }
 
 NOT_APPLICABLE = {
